@@ -321,6 +321,28 @@ var transSpecs = []transSpec{
 		bwsFunc("Write"),
 		bwsFunc("Sync"),
 	}},
+	// sugar.go sweetenFields: the arguments are opaque values; what kind each is (Field / error / string / other) is
+	// asked through the comma-ok type assertions; the field constructors and the diagnostic logger are intrinsics
+	{table: "TransSweeten", funcs: []transFunc{
+		{file: "sugar.go", recv: "SugaredLogger", name: "sweetenFields", lean: "sweetenFields",
+			fields: map[string]fieldSpec{"#ev": {"ev", "[]Event"}},
+			types: map[string]string{"interface{}": "Any", "Field": "Field", "invalidPairs": "[]struct:invalidPair",
+				"invalidPair": "struct:invalidPair"},
+			structs: map[string][]fieldSpec{"invalidPair": {{"position", "int"}, {"key", "Any"}, {"value", "Any"}}},
+			consts:  map[string]string{"_multipleErrMsg": "src", "_oddNumberErrMsg": "src", "_nonStringKeyErrMsg": "src"},
+			calls: map[string]shim{
+				".(Field)":  {kind: "extstmt", f: "assert.Field", res: []string{"Field", "bool"}},
+				".(error)":  {kind: "extstmt", f: "assert.error", res: []string{"ErrVal", "bool"}},
+				".(string)": {kind: "extstmt", f: "assert.string", res: []string{"string", "bool"}},
+				"Error":     {kind: "ext", f: "zap.Error", res: []string{"Field"}},
+				"Any":       {kind: "ext", f: "zap.Any", res: []string{"Field"}},
+				"Array":     {kind: "ext", f: "zap.Array", res: []string{"Field"}},
+				// cap(s) is a parameter of the context about which only len(s) ≤ cap(s) is assumed
+				"cap": {kind: "ext", f: "cap", res: []string{"int"}},
+				// the diagnostics go to the base logger at Error level with skip extra frames: recorded
+				"recv.base.WithOptions(AddCallerSkip(skip)).Error": {kind: "extstmt", f: "diag.Error", trace: "#ev"},
+			}},
+	}},
 	{table: "TransLogger", funcs: []transFunc{
 		{file: "logger.go", name: "terminalHookOverride", lean: "terminalHookOverride", types: loggerTypes, consts: hookConsts},
 		{file: "logger.go", recv: "Logger", name: "check", lean: "Logger_check",
